@@ -679,7 +679,7 @@ def cases(tier, seed):
         for s in range(3 if thorough else 1):
             qq = "X=Y" if sh[3] == sh[4] else "X!=Y"
             add("enlg.reps_unent", dict(shape=sh, seed=seed + 31 * j + s, reps=2), "enlg.reps/%s" % qq)
-            if j < 3:  # complex referee operators: the repeated table must keep their imaginary parts (F-09c)
+            if j < 3:  # complex referee operators: the repeated table must keep their imaginary parts (F-09g)
                 add("enlg.reps_unent", dict(shape=sh, seed=seed + 31 * j + s, reps=2, complex=True), "enlg.reps/%s/complex" % qq)
     nseeds = 12 if thorough else 2
     for i, sh in enumerate(shapes):
@@ -791,6 +791,12 @@ def cases(tier, seed):
                     add(cl, dict(par), ic, k > 1)
                 if reps == 1:
                     add("clone.pd", dict(par), ic, k > 1)
+    # two repetitions of ensembles of three and four complex states: primal == dual == what the certificates bracket (F-09h)
+    for j, k in enumerate((3, 4, 3)):
+        par = dict(seed=seed + 301 + 7 * j, k=k, complex=True, form="column", reps=2)
+        ic = "clone/complex/column/reps=2"
+        for cl in ("clone.primal.ge", "clone.primal.le", "clone.dual.ge", "clone.pd"):
+            add(cl, dict(par), ic, True)
     return out
 
 
